@@ -300,9 +300,12 @@ func (s *EMTState) edgeMultiComputeRecordSpecs(raw []RawType, frameIndexOfraw0 F
 	// EMTState.valid, which is checked on reset, makes sue npre and (nsamp-npre) are each 4 or greater, so the kink
 	// model can always look at least 4 samples back and 4 forward
 	maxNmonotone := maxLookahead
-	iFirst := int32(s.nextFrameIndexToInspect - frameIndexOfraw0)
+	// Compare frame numbers before narrowing to int32: after a reset nextFrameIndexToInspect is 0,
+	// and the (negative) difference does not fit in an int32 once frame numbers exceed 2^31.
+	offset := s.nextFrameIndexToInspect - frameIndexOfraw0
+	iFirst := int32(offset)
 	recordSpecs := make([]RecordSpec, 0)
-	if iFirst < maxLookback { // state has been reset
+	if offset < FrameIndex(maxLookback) { // state has been reset
 		iFirst = maxLookback
 		if s.iFirstCheckSentinel {
 			log.Println("reseting edge multi state unexpectedly")
